@@ -188,9 +188,19 @@ func (v *PacketDslVisitorImpl) VisitPacketDefinition(ctx *gen.PacketDefinitionCo
 				c.RefPacket = v.BinModel.PacketsMap[c.PacketName]
 			}
 		case *model.LengthFieldAttribute:
+			target, exists := fieldMap[c.TragetField.Name]
+			if !exists {
+				v.BinModel.AddSyntaxError(&model.SyntaxError{
+					Line:            f.Line,
+					Column:          f.Column,
+					Msg:             "Unknown target field " + c.TragetField.Name + " for length field " + f.Name,
+					OffendingSymbol: nil,
+				})
+				continue
+			}
 			f.Attr = &model.LengthFieldAttribute{
 				LengthType:  f.GetType(),
-				TragetField: fieldMap[c.TragetField.Name],
+				TragetField: target,
 			}
 		case *model.MatchFieldAttribute:
 			c.MatchKeyField = fieldMap[c.MatchKeyField.Name]
